@@ -1318,3 +1318,123 @@ M.contract('exactly_lib.execution.impl.single_instruction_executor:execute_eleme
                'success => no failure': lambda result, trace:
                (not (len(_applied(trace)) == 1 and _applied(trace)[0] is None)) or result is None,
            }, raises_only=())
+
+
+# ------------------------------------------------------------------------------ completeness of the list of sites
+
+def _settings_references(tree):
+    """references in a module that create, read or forward ProcessExecutionSettings"""
+    found = set()
+    for n in ast.walk(tree):
+        if isinstance(n, ast.Call):
+            f = n.func
+            if isinstance(f, ast.Name) and f.id == 'ProcessExecutionSettings':
+                found.add('ProcessExecutionSettings(...)')
+            if isinstance(f, ast.Attribute) and isinstance(f.value, ast.Name) and f.value.id == 'ProcessExecutionSettings':
+                found.add('ProcessExecutionSettings.%s(...)' % f.attr)
+        if isinstance(n, ast.Attribute) and isinstance(n.ctx, ast.Load) and \
+                n.attr in ('proc_exe_settings', 'process_execution_settings', '_proc_exe_settings',
+                           '_process_execution_settings'):
+            found.add('.' + n.attr)
+    return found
+
+
+# file -> the functions under contract (here or in C10_process) that cover its references
+SETTINGS_SITES = {
+    'util/process_execution/execution_elements.py': 'ProcessExecutionSettings.__new__ and its static constructors',
+    'test_case/phases/instruction_environment.py': 'environment classes: store / return the object (shapes ENV_*)',
+    'test_case/app_env.py': 'ApplicationEnvironment: stores / returns the object (shape APP_ENV)',
+    'execution/partial_execution/impl/executor.py': '_PartialExecutor._post_sds_environment, _setup_pre_sds_environment',
+    'execution/partial_execution/impl/atc_execution.py': 'ActionToCheckExecutor._app_env_for_execute',
+    'impls/actors/util/atc_proc_exe_settings.py': 'for_atc',
+    'impls/actors/program/execution.py': 'Executor.execute/_app_env, _ExecutorWith(out)Transformation.execute',
+    'impls/instructions/multi_phase/environ/impl.py': '_AppEnvConstructor._proc_exe_settings / of',
+    'impls/instructions/multi_phase/new_file.py': '_TheInstructionEmbryo.main',
+    'impls/instructions/multi_phase/new_dir.py': 'TheInstructionEmbryo.main',
+    'impls/instructions/multi_phase/utils/instruction_from_parts_for_executing_program.py': 'TheInstructionEmbryo.main',
+    'impls/instructions/assert_/utils/instruction_of_matcher.py': 'Instruction._execute / main',
+    'impls/instructions/assert_/process_output/impl/exit_code/getter_from_program.py': '_ExitCodeAndStderrFileGetter.get',
+    'impls/instructions/utils/logic_type_resolving_helper.py': 'full_resolving_env_for_instruction_env',
+    'impls/program_execution/file_transformation_utils.py': 'make_transformed_file_from_output*',
+    'impls/types/string_source/command_output/exit_ignored.py': '_WriterBase.write',
+    'impls/types/string_source/command_output/exit_relevant.py': 'StdoutWriter.write, StderrFileCreator.create',
+    'impls/types/string_source/ddvs.py': 'CommandOutputStringSourceDdv.value_of_any_dependency',
+    'impls/types/string_transformer/impl/sources/transformed_by_program.py': '_TransformationWriter.write',
+    'impls/types/matcher/impls/run_program/adv.py': 'Matcher.matches_w_trace',
+}
+
+
+@M.check('sites-complete')
+def _sites_complete(ctx):
+    """every file that creates, reads or forwards ProcessExecutionSettings is one of the verified sites:
+    a new plumbing site makes this obligation fail by file name"""
+    root = os.path.join(REPO_SRC, 'exactly_lib')
+    per_file = {}
+    for dirpath, _dirs, files in os.walk(root):
+        for fn in files:
+            if fn.endswith('.py'):
+                path = os.path.join(dirpath, fn)
+                rel = os.path.relpath(path, root).replace(os.sep, '/')
+                refs = _settings_references(ast.parse(open(path, encoding='utf-8').read(), path))
+                if refs:
+                    per_file[rel] = sorted(refs)
+    for rel in sorted(set(per_file) - set(SETTINGS_SITES)):
+        ctx.obligation('sites: %s handles ProcessExecutionSettings but is not a verified site' % rel, False, 'scan',
+                       detail={'references': per_file[rel]})
+    ctx.obligation('sites: the files that handle ProcessExecutionSettings are exactly the verified sites',
+                   set(per_file) == set(SETTINGS_SITES), 'scan',
+                   detail={'unexpected': sorted(set(per_file) - set(SETTINGS_SITES)),
+                           'vanished': sorted(set(SETTINGS_SITES) - set(per_file))})
+    # no site uses one of the constructors that drop the timeout
+    droppers = {rel: [r for r in refs if r.startswith('ProcessExecutionSettings.')]
+                for rel, refs in per_file.items() if rel != 'util/process_execution/execution_elements.py'}
+    droppers = {k: v for k, v in droppers.items() if v}
+    ctx.obligation('sites: no site builds settings with with_environ / with_empty_environ / null / from_non_immutable '
+                   '(which would drop or replace the timeout)', not droppers, 'scan', detail={'uses': droppers})
+
+
+COMMAND_EXECUTOR_USERS = {
+    'test_case/os_services.py': 'the interface',
+    'impls/os_services/impl.py': 'OsServicesForAnyOs: stores / returns the executor',
+    'impls/os_services/os_services_access.py': 'construction (C10 `construction`)',
+    'impls/program_execution/impl/cmd_exe_from_proc_exe.py': 'CommandExecutorFromProcessExecutor (C10_process)',
+    'impls/actors/file_interpreter.py': '_ActionToCheck.execute',
+    'impls/actors/program/execution.py': '_ExecutorWith(out)Transformation.execute',
+    'impls/actors/util/actor_from_parts/command_executor.py': 'OsProcessExecutor.execute',
+    'impls/instructions/assert_/process_output/impl/exit_code/getter_from_program.py': '_ExitCodeAndStderrFileGetter.get',
+    'impls/instructions/multi_phase/utils/instruction_from_parts_for_executing_program.py': 'TheInstructionEmbryo.main',
+    'impls/program_execution/file_transformation_utils.py': 'make_transformed_file_from_output',
+    'impls/program_execution/processors/read_stderr_on_error.py': 'the two processors',
+    'impls/program_execution/processors/store_result_in_files.py': 'the two processors',
+    'impls/types/matcher/impls/run_program/adv.py': 'Matcher.matches_w_trace',
+    'impls/types/string_source/command_output/exit_ignored.py': '_WriterBase.write',
+    'impls/types/string_source/command_output/exit_relevant.py': 'StdoutWriter.write, StderrFileCreator.create',
+    'impls/types/string_source/command_output/string_source.py': '_writer / _contents / string_source',
+    'impls/types/string_source/ddvs.py': 'CommandOutputStringSourceDdv.value_of_any_dependency',
+    'impls/types/string_transformer/impl/sources/transformed_by_program.py': '_TransformationWriter',
+}
+
+
+@M.check('executor-users-complete')
+def _executor_users_complete(ctx):
+    """every file that touches a command executor is one of the verified sites"""
+    import re
+    root = os.path.join(REPO_SRC, 'exactly_lib')
+    users = set()
+    for dirpath, _dirs, files in os.walk(root):
+        for fn in files:
+            if fn.endswith('.py'):
+                path = os.path.join(dirpath, fn)
+                rel = os.path.relpath(path, root).replace(os.sep, '/')
+                tree = ast.parse(open(path, encoding='utf-8').read(), path)
+                for n in ast.walk(tree):
+                    name = n.attr if isinstance(n, ast.Attribute) else (n.id if isinstance(n, ast.Name) else
+                                                                        (n.arg if isinstance(n, ast.arg) else None))
+                    if name and re.search(r'command_executor|CommandExecutor', name):
+                        users.add(rel)
+    for rel in sorted(users - set(COMMAND_EXECUTOR_USERS)):
+        ctx.obligation('sites: %s uses a command executor but is not a verified site' % rel, False, 'scan')
+    ctx.obligation('sites: the files that use a command executor are exactly the verified ones',
+                   users == set(COMMAND_EXECUTOR_USERS), 'scan',
+                   detail={'unexpected': sorted(users - set(COMMAND_EXECUTOR_USERS)),
+                           'vanished': sorted(set(COMMAND_EXECUTOR_USERS) - users)})
